@@ -96,6 +96,7 @@ pub fn run(out: &mut Out, which: &str, seed: u64, thorough: bool) {
         }
         "prefixed" => small_prefixed(out, 4, if thorough { 1 } else { 6 }, seed),
         "sizes" => sizes(out, &mut rng, 250 * k),
+        "adversarial" => sizes_adversarial(out, &mut rng, 2500 * k),
         "docs" => docs(out, &mut rng, 300 * k, false, true),
         "mutate" => docs(out, &mut rng, 400 * k, true, true),
         "suffixes" => suffixes(out, &mut rng, 150 * k),
@@ -607,5 +608,48 @@ fn tol_systematic(out: &mut Out, n: &mut usize) {
             for bits in 0..8u8 { let mut c = ReaderCfg::strict().with_allow(bits); c.max = MaxCfg::Some(65536); run_reader::<DynTag>(out, &format!("allow:{bits}"), &bytes, &c, &[], &until_end()); }
             out.ev(json!({"ev":"end"}));
         }
+    }
+}
+
+/// C17: headers declaring sizes from 0 to 2^56-2 in every vint width, at the root and inside known- /
+/// unknown-size masters, under limits M (16 .. default 4 GB, none), tolerance sets and capacities; the payload is
+/// mostly missing.  Each `next` event carries the peak heap growth of the call and the buffer capacity.
+pub fn sizes_adversarial(out: &mut Out, rng: &mut Rng, count: usize) {
+    let s = gen::s3();
+    let mut n = 0usize;
+    for i in 0..count {
+        let limit: (MaxCfg, u64) = match i % 6 { 0 => (MaxCfg::Some(16), 16), 1 => (MaxCfg::Some(1024), 1024), 2 => (MaxCfg::Some(1 << 20), 1 << 20), 3 => (MaxCfg::Default, DEFAULT_MAX), 4 => (MaxCfg::None, u64::MAX), _ => (MaxCfg::Some(100_000), 100_000) };
+        let m = limit.1;
+        let w = rng.range(1, 8);
+        let maxv = (1u64 << (7 * w)) - 2;
+        let cands: Vec<u64> = [0u64, 1, 8, 9, 15, 16, 17, m.saturating_sub(1), m, m.saturating_add(1), m.saturating_mul(2), maxv, maxv - 1, 1 << 20, (1 << 23) + 5, 1 << 30, 1 << 40, (1u64 << 56) - 2, rng.next_u64() >> rng.range(8, 63)]
+            .iter().copied().filter(|v| *v <= maxv).collect();
+        let mut v = *rng.pick(&cands);
+        // never ask the real code for more than 8 MiB that it may legitimately allocate
+        let within = v <= m;
+        if within && v > (8 << 20) { v = *rng.pick(&[0u64, 9, 4096, 1 << 20, (8 << 20) - 1]); if v > maxv { v = maxv.min(100); } }
+        let elem_id: u64 = if i % 3 == 0 { 0xec } else { 0x88 };
+        let mut elem = gen::id_bytes(elem_id); elem.extend(gen::vint_w(v, w));
+        let have = match rng.below(4) { 0 => 0usize, 1 => rng.below(6), 2 => (v.min(5000)) as usize, _ => (v.min(64)) as usize };
+        elem.extend(rng.bytes(have.min(v.min(1 << 20) as usize)));
+        // context: root (global element only), or inside A{B{C{..}}} with each master known (generous size) or unknown
+        let mut bytes = Vec::new();
+        let nested = elem_id == 0x88 || rng.chance(1, 2);
+        if nested {
+            let mut inner = elem.clone();
+            if rng.chance(1, 3) { inner.extend([0x84, 0x81, 0x01]); }   // a further element after it
+            for id in [0x83u64, 0x82, 0x81] {
+                let mut h = gen::id_bytes(id);
+                match rng.below(3) { 0 => h.push(0xff), 1 => h.extend(gen::size_field(inner.len() as u64, 0)), _ => h.extend(gen::vint_w((inner.len() as u64).max(v.min((1 << 27) - 2)).min((1 << 28) - 2), 4)) }
+                h.extend(inner); inner = h;
+            }
+            bytes = inner;
+        } else { bytes.extend(elem); }
+        let mut c = ReaderCfg::strict().with_allow(*rng.pick(&[0u8, 0, 4, 6, 7, 2]));
+        c.max = limit.0.clone();
+        c.cap = *rng.pick(&[None, Some(16), Some(64), Some(0)]);
+        begin(out, &mut n, &s, "single", json!({"declared": w8(v), "width": w, "limit": w8(m)}));
+        run_reader::<DynTag>(out, "adv", &bytes, &c, &[], &Calls::UntilEnd { extra: 0, max_calls: 40 });
+        out.ev(json!({"ev":"end"}));
     }
 }
